@@ -264,7 +264,20 @@ class World:
                 self.fail("__vacuous__", "assumptions unsatisfiable or unknown at " + label)
                 return
             self.nonvacuous = True
-        r, model = _solve(base + [goal])
+        if getattr(self, "incremental", False):
+            # linear Int/Bool obligations: decided on the path's own incremental solver (pc already asserted)
+            sv = ctx.solver
+            sv.push()
+            sv.add(*self.extra_axioms)
+            sv.add(goal)
+            rr = sv.check()
+            model = sv.model() if rr == z3.sat else None
+            sv.pop()
+            r = "unsat" if rr == z3.unsat else ("sat" if rr == z3.sat else "unknown")
+            if r == "unknown":
+                r, model = _solve(base + [goal])
+        else:
+            r, model = _solve(base + [goal])
         self.solver_calls += 1
         self.solver_s += time.time() - t0
         if r == "unsat":
